@@ -1,6 +1,6 @@
 SPECIFICATION Spec
 CONSTANTS
-    Cfgs <- AllCfgs
+    Cfgs <- MainCfgs
     Pages = {"landing", "describe"}
     Accepts = {"html", "other"}
     AuthClasses = {"none", "valid", "invalid", "jwt_expired", "header_valid"}
